@@ -268,6 +268,19 @@ func c09(c *core.Ctx) {
 		if errors.Is(err, errCallback) {
 			cl = "callback"
 		}
+		// the error itself, not a wrapper around it: what the failing setter returns directly
+		direct := setters[failAt].(countingSetter).inner.AddTo(new(stun.Message)) //nolint:forcetypeassert
+		sameError := err == direct                                                //nolint:errorlint // identity is the point
+		if !sameError && direct != nil && err != nil {
+			// debug builds create a fresh error value per call: then type and text must coincide
+			sameError = fmt.Sprintf("%T|%v", err, err) == fmt.Sprintf("%T|%v", direct, direct)
+		}
+		if err != nil && !sameError {
+			detail["returned"], detail["setter_returns"] = fmt.Sprintf("%T: %v", err, err), fmt.Sprintf("%T: %v", direct, direct)
+			c.Violate("build-wrong-error", "build-wraps-error", detail)
+
+			return
+		}
 		if err == nil || cl != firstErrClass {
 			detail["class"], detail["want_class"] = cl, firstErrClass
 			c.Violate("build-wrong-error", "build-wrong-error", detail)
